@@ -264,6 +264,8 @@ def classify(ev):
         if re.search(r"/\s+/|<\s+=|>\s+=|!\s+=|:\s+:", t):
             return "splitTwoCharacterTokenAccepted"
         for i in range(len(toks) - 1):
+            if toks[i] == "(" and toks[i + 1] == ")" and i > 0 and ev["toks"][i - 1]["s"] == "*":
+                return "asteriskNodeTypeAccepted"
             if toks[i] == "(" and toks[i + 1] == ")" and (i == 0 or toks[i - 1] != "name" or ev["toks"][i - 1]["s"] in ("and", "or", "div", "mod")):
                 return "emptyParenthesesAccepted"
             if toks[i] == "$" and toks[i + 1] != "name":
